@@ -54,6 +54,10 @@ def gen_whole(rng, max_funcs=3):
             else:
                 funcs.append(core3gen.gen_func(rng, sig=sg, genv=genv))
         nd, dd = metagen.gen_sec(rng, max_defs=4) if rng.random() < 0.7 else ("-", "-")
+        # metadata attachments on instructions, referring to definitions of the metadata section (which is printed AFTER the functions)
+        if dd != "-" and rng.random() < 0.7:
+            ids = [int(e.split(":")[0]) for e in dd.split("|")]
+            funcs = [core3gen.attach(rng, f, ids) for f in funcs]
         args = [ts, gs, nd, dd, str(len(funcs))] + [x for f in funcs for x in f]
         return " ".join(args)
 
@@ -148,6 +152,34 @@ def mutants(rng, text):
         # a local of the same spelling is not the global
         k, m = rng.choice(guses)
         out.append(("global-use-as-local", with_line(k, lines[k][:m.start()] + b"%" + m.group(0)[1:] + lines[k][m.end():])))
+    # metadata attachments of instructions: the IDs they name are definitions of the metadata section
+    atts = [(k, m) for k in body for m in re.finditer(rb', !(?:[-a-zA-Z$._0-9\\]+) !(\d+)', lines[k]) if lines[k][:m.start()].count(b'"') % 2 == 0]
+    if atts:
+        k, m = rng.choice(atts)
+        out.append(("attachment-undefined-id", with_line(k, lines[k][:m.start(1)] + b"987654" + lines[k][m.end(1):])))
+        k, m = rng.choice(atts)
+        dfn = [j for j in md if lines[j].startswith(b"!" + m.group(1) + b" = ")]
+        if dfn:
+            out.append(("attached-definition-deleted", b"\n".join(lines[:dfn[0]] + lines[dfn[0] + 1:])))
+        k, m = rng.choice(atts)
+        out.append(("attachment-without-bang", with_line(k, lines[k][:m.start(1) - 1] + lines[k][m.start(1):])))
+        k, m = rng.choice(atts)
+        out.append(("attachment-doubled", with_line(k, lines[k] + lines[k][m.start():m.end()])))
+        k, m = rng.choice(atts)
+        out.append(("attachment-without-comma", with_line(k, lines[k][:m.start()] + lines[k][m.start() + 1:])))
+        k, m = rng.choice(atts)
+        other = [j for j in body if j != k and not lines[j].startswith(b"\t\t")]
+        if other:
+            j = rng.choice(other)
+            out.append(("attachment-moved", b"\n".join(with_line(k, lines[k][:m.start()] + lines[k][m.end():]).split(b"\n")[:j] + [lines[j] + lines[k][m.start():m.end()]] + with_line(k, lines[k][:m.start()] + lines[k][m.end():]).split(b"\n")[j + 1:])))
+    elif md and body:
+        # an attachment where the module has none (a defined ID; an undefined one)
+        j = rng.choice([j for j in body if not lines[j].startswith(b"\t\t")] or body)
+        ids = [re.match(rb"!(\d+) = ", lines[q]) for q in md]
+        ids = [x.group(1) for x in ids if x]
+        if ids:
+            out.append(("attachment-added", with_line(j, lines[j] + b", !dbg !" + rng.choice(ids))))
+        out.append(("attachment-added-undefined", with_line(j, lines[j] + b", !dbg !424242")))
     return out
 
 
